@@ -225,9 +225,11 @@ class CellVetoEventHandler(EventHandlerWithBoundingPotential, Initializer, metac
 
         total_rate = walker.total_rate * charge_factor
         relative_cell = walker.sample_cell()
+        # The bounding event rate is compared to the time derivative of the potential (which includes the speed) when
+        # the event is confirmed, and the target cell is proposed with this rate times the speed.
         self._bounding_event_rate = (
                 self._derivative_bounds[relative_cell][direction_of_motion][bounding_event_rate_index]
-                * charge_factor)
+                * charge_factor * speed)
         assert self._bounding_event_rate > 0.0
         target_cell = self._cells.translate(active_cell, relative_cell)
         # TODO add a seeding option at each place a random number is used so that we can insert random numbers
